@@ -168,7 +168,36 @@ func check(c rtCase) *harness.Failure {
 			return f
 		}
 	}
-	return roundTrip(doc)
+	if f := roundTrip(doc); f != nil {
+		return f
+	}
+	// the same document object after it was encoded: the BOM flag assigned, and values
+	// replaced in place through the setters that do that (SetSex on an existing SEX line,
+	// SetHusbandPointer/SetWifePointer on existing lines) - still a document built through
+	// the public API, and what was encoded before must not show
+	var f2 *harness.Failure
+	if f := safely("in-place-edit", func() {
+		doc.HasBOM = !doc.HasBOM
+		for k, ind := range doc.Individuals() {
+			ind.SetSex([]string{"F", "M", "U"}[k%3])
+		}
+		for _, fam := range doc.Families() {
+			if !gedcom.IsNil(fam.Husband()) {
+				fam.SetHusbandPointer("ZZH")
+			}
+			if !gedcom.IsNil(fam.Wife()) {
+				fam.SetWifePointer("ZZW")
+			}
+		}
+		f2 = roundTrip(doc)
+	}); f != nil {
+		return f
+	}
+	if f2 != nil {
+		f2.Sig = "after-in-place-edit:" + f2.Sig
+		f2.Msg = "after the document was encoded once, its BOM flag assigned and values replaced in place: " + f2.Msg
+	}
+	return f2
 }
 
 func classes(f *gen.ForestBP) (cls []string, nontrivial bool) {
